@@ -195,8 +195,17 @@ let do_region (idx : int) (d : dreg) =
    | NOk _, None -> trace_ok := false; note "code did not finish the region, model did"
    | NFuel, _ -> if d.d_end <> None then (trace_ok := false; note "model out of fuel"));
   (* --- verified region checker on the dumped final data *)
+  (* when the generator correspondence fails the checker still runs, on the DUMPED variables / segment-variable map
+     (the search step: the oracle against the implementation on the diverging input) *)
+  let g = if gen_ok then g else
+      match d.d_vars, d.d_cons with
+      | Some vs, Some cs ->
+          note "chk on dumped vs/cs";
+          { gvs = vs; gcs = cs; ggap = []; gfree = [];
+            gprev = List.mapi (fun i ((vi, _), s) -> ((nat_of_int i, nat_of_int vi), s.sfixed)) (List.combine d.d_segvar d.d_segs) }
+      | _ -> g in
   let chk = match d.d_end with
-    | Some (sat, sep, pos) when gen_ok && Array.length iters > 0 ->
+    | Some (sat, sep, pos) when (gen_ok || d.d_vars <> None) && Array.length iters > 0 ->
         let last = iters.(Array.length iters - 1) in
         let cs = match last.i_cons with Some c -> c | None -> [] in
         if nudge_region_ok tol6 r g sat sep cs last.i_x pos then "1" else begin
